@@ -823,6 +823,55 @@ theorem c10_innate_shipped_embedding (env : Env) (ce : Rx.CharEnv) (hrx : RxShip
     exact c10_shipped_regexes_embedding_stable ce e he c pre post hsep hm
   · exact hother s hs hr hsh hm
 
+/-- **Every shipped regex signature is understood by the model and stays matched under case changes** — for every
+    shipped regex: its parse tree contains only constructs the model gives a meaning to, and a text that `re`'s tables
+    cannot tell apart from a matched text code point by code point (`Rx.CaseVar`: same classes `\d \s \w`, equal
+    to the same pattern literals under IGNORECASE, same ranges) is matched too.  Holds with anchors as well; what it
+    needs from the shipped table is the IGNORECASE flag and nothing unsupported. -/
+theorem c10_shipped_regexes_case_stable (ce : Rx.CharEnv) (e : Str × Rx.Re) (he : e ∈ shippedRegexes) :
+    e.2.supported = true ∧
+    ∀ text text', Rx.CaseVar ce text text' → Rx.search ce e.2 text = true → Rx.search ce e.2 text' = true := by
+  have hall : ∀ e ∈ shippedRegexes, e.2.supported = true := by decide
+  exact ⟨hall e he, fun text text' hcv h => Rx.search_case_stable ce e.2 text text' hcv h⟩
+
+/-- **Membrane and innate filter, case changes, shipped regexes without hypothesis**: with `re` as modelled on the
+    shipped patterns, a case variant (same folded code points, and code point by code point indistinguishable for
+    `re`'s tables) of a blocked input is blocked — by the membrane and by the innate filter; a hypothesis remains only
+    for regexes that are not shipped. -/
+theorem c10_shipped_case_variants_blocked (env : Env) (ce : Rx.CharEnv) (hrx : RxShipped env ce) (c c' : Str)
+    (hv : CaseVariant env c c') (hcv : Rx.CaseVar ce c c') :
+    (∀ (m m' : Membrane) (now' : Nat),
+      (∀ s ∈ m.active, s.isRegex = true → s.pat ∉ shippedRegexes.map (·.1) →
+        env.rx s.pat c = true → env.rx s.pat c' = true) →
+      ¬ scanLevel env m.active c < m.threshold → m'.active = m.active ∧ m'.threshold = m.threshold →
+      (m'.filter env now' c').2.decision.allowed = false) ∧
+    (∀ (im im' : Innate) (now' : Nat),
+      (∀ s ∈ im.patterns, s.isRegex = true → s.pat ∉ shippedRegexes.map (·.1) →
+        env.rx s.pat c = true → env.rx s.pat c' = true) →
+      (∃ s ∈ im.patterns, s.matches env c = true ∧ im.sevThreshold ≤ s.level) →
+      im'.patterns = im.patterns ∧ im'.sevThreshold = im.sevThreshold →
+      ∀ r', (im'.check env now' c').2 = .ok r' → r'.allowed = false) := by
+  -- every signature that matched `c` matches `c'`: substring signatures by case folding, shipped regexes by the
+  -- regex model, other regexes by the hypothesis
+  have keeps : ∀ sigs : List Sig, (∀ s ∈ sigs, s.isRegex = true → s.pat ∉ shippedRegexes.map (·.1) →
+      env.rx s.pat c = true → env.rx s.pat c' = true) → KeepsHits env sigs c c' := by
+    intro sigs hother s hs hm
+    cases hr : s.isRegex with
+    | false => rw [← matches_sub_case env s hr c c' hv]; exact hm
+    | true =>
+      simp only [Sig.matches, hr, if_true] at hm ⊢
+      by_cases hsh : s.pat ∈ shippedRegexes.map (·.1)
+      · obtain ⟨e, he, hpe⟩ := List.mem_map.mp hsh
+        rw [← hpe] at hm ⊢
+        rw [hrx e he] at hm ⊢
+        exact (c10_shipped_regexes_case_stable ce e he).2 c c' hcv hm
+      · exact hother s hs hr hsh hm
+  constructor
+  · intro m m' now' hother hb hsame
+    exact c10_membrane_blocked_stays_blocked env m m' now' c c' hb hsame (keeps m.active hother)
+  · intro im im' now' hother hblocked hsame r' h'
+    exact c10_innate_blocked_stays_blocked env im im' now' c c' hblocked hsame (keeps im.patterns hother) r' h'
+
 /-! ## The translated source agrees with the model
 
 `Operon/Gen/GatesTranslated.lean` is regenerated from the Python AST of `membrane.py` / `innate.py` by
@@ -1105,5 +1154,15 @@ example : (fun r : Rx.Re => r.anchorFree = false ∧ Rx.search Rx.stdEnv r [72, 
                     (.seq (.lit 97) (.seq (.lit 110) (.lit 116))))))))))
             (.lit 58)))) := by
   decide
+
+/-- `c10_shipped_regexes_case_stable` / `c10_shipped_case_variants_blocked`: under the driver's tables "Human:" and
+    "hUMAN:" are indistinguishable code point by code point (checked here for the two letters that differ in kind:
+    `H`/`h` and `:`/`:`), and some shipped regex matches both -/
+example : Rx.CaseEqv Rx.stdEnv 72 104 ∧ Rx.CaseEqv Rx.stdEnv 58 58 := by
+  refine ⟨⟨by decide, by decide, by decide, ?_, ?_, by decide⟩, ⟨rfl, rfl, rfl, fun _ => rfl, fun _ _ => rfl, rfl⟩⟩
+  · intro x; simp [Rx.stdEnv, lowerStd]
+  · intro lo hi; simp [Rx.stdEnv, Rx.casesStd, Bool.or_comm]
+example : (shippedRegexes.any fun e => Rx.search Rx.stdEnv e.2 [72, 117, 109, 97, 110, 58] &&
+      Rx.search Rx.stdEnv e.2 [104, 85, 77, 65, 78, 58]) = true := by decide
 
 end Operon.Gates
